@@ -124,13 +124,18 @@ pub fn c41(args: &Args) -> ! {
     let quick = args.tier == Tier::Quick;
     let mut jobs = Vec::new();
     let bname = |b: i64| if b == 0 { "shm" } else { "memory" };
-    // strict sequential family: one child per scenario, so that one finding cannot hide another
-    for backend in [0i64, 1] {
-        for i in 0..24 {
-            let shape = format!("{} state, sequential: removal, then two operations on the removed channel and one on the other; scenario {i}/24", bname(backend));
-            jobs.push(Job::new("afc", "c41", &[backend, 0, 0, i, 24], None, 30, &shape));
-        }
+    // strict sequential family (24 scenarios per state; scenario i is a seal scenario iff i % 8 < 4).
+    // The shm seal scenarios each run in a child of their own, so that the known error-kind
+    // finding they all report cannot hide another scenario; the others are grouped.
+    for i in (0..24).filter(|i| i % 8 < 4) {
+        let shape = format!("shm state, sequential: removal, then two operations on the removed channel and one on the other; seal scenario {i}/24");
+        jobs.push(Job::new("afc", "c41", &[0, 0, 0, i, 24], None, 30, &shape));
     }
+    for sh in 4..8 {
+        let shape = format!("shm state, sequential: removal, then two operations on the removed channel and one on the other; open scenarios, group {sh}/8");
+        jobs.push(Job::new("afc", "c41", &[0, 0, 0, sh, 8], None, 30, &shape));
+    }
+    jobs.push(Job::new("afc", "c41", &[1, 0, 0, 0, 1], None, 30, "memory state, sequential: removal, then two operations on the removed channel and one on the other; all 24 scenarios"));
     // (backend, family, max program length, bounds, unbounded, shards, cap)
     let plan: Vec<(i64, i64, i64, Vec<usize>, bool, i64, u64)> = if quick {
         vec![
@@ -140,6 +145,10 @@ pub fn c41(args: &Args) -> ! {
             (1, 1, 2, vec![0, 1, 2, 3], true, 1, 30),
             (1, 2, 1, vec![0, 1, 2, 3], false, 2, 30),
             (1, 3, 3, vec![2, 3], false, 4, 30),
+            (0, 4, 5, vec![], true, 1, 30),
+            (1, 4, 5, vec![], true, 1, 30),
+            (0, 5, 3, vec![2], false, 6, 30),
+            (1, 5, 3, vec![1], false, 2, 30),
         ]
     } else {
         vec![
@@ -149,6 +158,14 @@ pub fn c41(args: &Args) -> ! {
             (1, 1, 3, vec![0, 1, 2, 3], true, 2, 700),
             (1, 2, 1, vec![0, 1, 2, 3, 4], false, 4, 700),
             (1, 3, 3, vec![2, 3, 4], true, 8, 700),
+            (0, 14, 5, vec![], true, 4, 700),
+            (1, 14, 5, vec![], true, 4, 700),
+            (0, 4, 6, vec![], true, 4, 700),
+            (1, 4, 6, vec![], true, 4, 700),
+            (0, 5, 3, vec![2, 3], false, 8, 700),
+            (1, 5, 3, vec![2, 3], false, 8, 700),
+            (0, 15, 3, vec![2], false, 8, 700),
+            (1, 15, 3, vec![2], false, 8, 700),
         ]
     };
     for (backend, family, len, bs, unb, shards, cap) in plan {
@@ -160,6 +177,8 @@ pub fn c41(args: &Args) -> ! {
                     match family {
                         1 => format!("one reader runs every program over {{op(x), op(y)}} of length <= {len}"),
                         2 => "two readers run one or two operations".to_string(),
+                        4 | 14 => format!("[script family, sequential] every script of length <= {len} over {{remove(never-added id), remove_if(nothing), remove(x), remove(y){}, reader op(x), reader op(y)}} that contains a removal of nothing or of an already-removed channel, a real removal and a later reader operation", if family == 14 { ", remove_if(id==x), remove_all" } else { "" }),
+                        5 | 15 => format!("[script family] every writer script of length <= {len} over {{remove(never-added id), remove_if(nothing), remove(x), remove(y){}}} with a real removal and a removal of nothing / of an already-removed channel, against one reader running every program of length <= 3 that operates on one channel at least twice", if family == 15 { ", remove_if(id==x)" } else { "" }),
                         _ => format!("(followed by remove(y)) one reader runs every program of length <= {len} that operates on y at least twice"),
                     }
                 );
@@ -177,6 +196,9 @@ pub fn c41(args: &Args) -> ! {
             "removed_channel_op_ok_before_removal_visible",
             "kept_channel_op_ok",
             "futex_wait_blocked",
+            "script_real_removal",
+            "script_removal_of_nothing",
+            "script_removal_of_already_removed_channel",
         ],
     );
     rep.assume("'starts after the removal has returned' is observed through a SeqCst flag written by the writer after the call returns and read by the reader immediately before its operation");
